@@ -41,6 +41,8 @@ func VFRun(env *vfc.Env) {
 		vfHistories(env, "c03", nil)
 	case "db.c02sched":
 		vfC02Sched(env)
+	case "db.c02serve":
+		vfC02Serve(env)
 	case "db.bench":
 		vfBench(env)
 	case "db.c02":
